@@ -128,7 +128,8 @@ def run(case, ctx):
             inner = (c,) + sp + (D,) * k
             n_in = int(np.prod(inner))
             vals = np.arange(L)[:, None] * 512 + (np.arange(n_in)[None, :] % 512)  # < 2^24 for L < 32768
-            blocks[(k, p)] = jnp.asarray(vals.reshape((L,) + inner).astype(np.float32))
+            # one case in five keeps the data set as NumPy arrays (as loaded from disk)
+            blocks[(k, p)] = (lambda v: v)(vals.reshape((L,) + inner).astype(np.float32)) if (case["i"] % 5 == 2 or (case["i"] % 5 == 3 and rng.integers(0, 2))) else jnp.asarray(vals.reshape((L,) + inner).astype(np.float32))  # i%5==3: NumPy and jax blocks mixed
         mis.append(geom.MultiImage(blocks, D, True))
         layouts.append({str(t): list(v.shape) for t, v in blocks.items()})
     # identical operands: the very same object may be co-batched with itself (inputs == targets of an auto-encoder)
